@@ -178,7 +178,33 @@ func newProcRunner(cmd *exec.Cmd) (runner.Runner, error) {
 	if err != nil {
 		return nil, err
 	}
-	return &procRunner{cmd: cmd, stdout: so, stderr: se}, nil
+	pr := &procRunner{cmd: cmd, stdout: so, stderr: se}
+	lastProcRunner = pr
+	return pr, nil
+}
+
+var lastProcRunner *procRunner
+
+// attachedProc is the AttachedRunner of an application that reattaches to a plugin behind its own (container-like)
+// runner: same address translation as the launching runner, the plugin is watched and killed through its pid.
+type attachedProc struct{ pr *procRunner }
+
+func (a *attachedProc) Wait(context.Context) error {
+	for a.pr.cmd.Process != nil && syscall.Kill(a.pr.cmd.Process.Pid, 0) == nil {
+		if b, err := os.ReadFile(fmt.Sprintf("/proc/%d/stat", a.pr.cmd.Process.Pid)); err == nil && strings.Contains(string(b), ") Z ") {
+			break // a zombie waiting for the launching client's Wait
+		}
+		time.Sleep(100 * time.Millisecond)
+	}
+	return nil
+}
+func (a *attachedProc) Kill(ctx context.Context) error { return a.pr.Kill(ctx) }
+func (a *attachedProc) ID() string                     { return a.pr.ID() }
+func (a *attachedProc) PluginToHost(n, ad string) (string, string, error) {
+	return a.pr.PluginToHost(n, ad)
+}
+func (a *attachedProc) HostToPlugin(n, ad string) (string, string, error) {
+	return a.pr.HostToPlugin(n, ad)
 }
 
 func (r *procRunner) Start(context.Context) error {
@@ -714,6 +740,17 @@ func RunCell(c *Cell) (res *Result) {
 				break
 			}
 			res.PluginPid = rc.Pid
+			if rc.Pid == 0 && rc.ReattachFunc == nil && lastProcRunner != nil {
+				// the plugin runs behind the application's own runner: the application supplies the ReattachFunc (the
+				// default one needs a pid), with the same address translation as the launching runner
+				rc2 := *rc
+				pr := lastProcRunner
+				rc2.ReattachFunc = func() (runner.AttachedRunner, error) { return &attachedProc{pr: pr}, nil }
+				rc = &rc2
+				if pr.cmd.Process != nil {
+					res.PluginPid = pr.cmd.Process.Pid
+				}
+			}
 			cfg := mkConfig()
 			cfg.Reattach = rc
 			cfg.AutoMTLS = false
